@@ -68,7 +68,10 @@ class PeerLink:
             self.typ = getattr(init, 'typ', None) or 'P'
         if self.typ == 'F':
             while True:
-                data = await self.ep.reader.read(65536)
+                try:
+                    data = await self.ep.reader.read(65536)
+                except ConnectionError:
+                    data = b''
                 if not data:
                     self.closed = True
                     return
@@ -521,8 +524,8 @@ class World:
     async def peer_offer(self, t):
         M = self.M
         # environment assumption (see TransferTasks.PeerOffer): the peer does not offer again while its previous
-        # offer is being processed, nor while an abort of t is parked in its file removal
-        if self.transfers[t - 1].is_upload() or self.live(t, 'init') or self._call_pending(t):
+        # offer is being processed
+        if self.transfers[t - 1].is_upload() or self.live(t, 'init'):
             self._record('stim', o='offer-skipped', t=t)
             return
         link = await self._peer_p_link()
@@ -884,6 +887,7 @@ PINNED = [
     (('df',), (('cycle',), ('call', 1, 'remove', None, False)), 'ok'),
     (('di',), (('cycle',), ('call', 1, 'abort', None, True), ('cycle',), ('release', 1)), 'timeout'),
     (('dq',), (('cycle',), ('call', 1, 'pause', 1, False)), 'timeout'),
+    (('di',), (('call', 1, 'abort', None, True), ('peer_offer', 1), ('release', 1)), 'ok'),
     (('dq',), (('cycle',), ('call', 1, 'abort', 0, False)), 'ok'),
     (('dq',), (('cycle',), ('call', 1, 'remove', None, False)), 'ok'),
     (('dq',), (('cycle',), ('call', 1, 'pause', None, False)), 'ok'),
@@ -903,7 +907,7 @@ PINNED = [
 # replay
 # ---------------------------------------------------------------------------
 
-def replay(kinds, stimuli, conc, window):
+def execute(kinds, stimuli, conc, window):
     """Execute one schedule on the real client; returns the recorded trace (list of JSON-able records)."""
     tmp = tempfile.mkdtemp(prefix='c06-')
     box = {}
@@ -1012,7 +1016,11 @@ def fingerprint(tid, info, trace):
             if o == 'remove' and st != 'ABORTED':
                 return f'C06:remove:task-survives-remove-in-state-{st}'
             if n_before is not None and any(k > n_before for k in live):
-                return f'C06:{o}:task-started-during-the-call-survives-it'
+                kinds = trace[0].get('kinds') or []
+                by_peer = (0 < t <= len(kinds) and kinds[t - 1] != 'uq'
+                           and any(k > n_before for k in s[t - 1]['ltt']))
+                by = 'by-peer-transfer-request' if by_peer else 'by-manage_transfers'
+                return f'C06:{o}:task-started-during-the-call-survives-it:{by}'
             return f'C06:{o}:live-task-after-return'
         return f"C06:quiet:task-live-after-return:{ev.get('ev')}"
     if name in ('QuietAfterReturn', 'QuietAfterReturnT'):
@@ -1049,7 +1057,7 @@ def collect_schedules(chk: Check, thorough: bool):
         st = stimuli_of([e[1] for e in p])
         if st:
             scheds.setdefault((kinds, st, None), 'cover')
-    chk.log(f'graph {cover_cfg}: {len(g.states)} states, {len(g.edges)} edges, {len(paths)} cover paths, '
+    chk.log(f'graph {cover_cfg}: {res.distinct_states} states, {len(g.edges)} edges, {len(paths)} cover paths, '
             f'{len(scheds) - n0} distinct schedules')
     chk.cov['graph_edges'] = len(g.edges)
     chk.cov['cover_paths'] = len(paths)
@@ -1077,21 +1085,43 @@ SWITCH_EXPECT = {
     'CallbackOwnOnly': 'SlotsTrackLive',
     'RemoveCancels': 'QuietNoTasks',
     'CycleSkipsLocked': 'QuietNoTasks',
+    'OfferSkipsLocked': 'QuietNoTasks',
 }
 
 
-def run_replay_file(chk: Check, path):
-    with open(path) as fh:
-        data = json.load(fh)
+def _classified(traces, v):
+    """Name, for every rejected trace, the first event that breaks a property (TraceWhy.cfg, one TLC start)."""
+    why = classify(traces, sorted(v.rejected))
+    for tid, (l, prop) in why.items():
+        info = v.rejected[tid]
+        v.rejected[tid] = dict(kind='property', name=prop, at=l,
+                               detail=(info.get('detail') or '') + ' [event named by TraceWhy.cfg]',
+                               event=traces[tid - 1][l - 1] if 0 < l <= len(traces[tid - 1]) else None)
+    for tid, info in v.rejected.items():
+        if info.get('kind') == 'rejected' and info.get('at') is None:
+            # no property named and not diagnosed: an event no action of the trace spec explains
+            tr = traces[tid - 1]
+            bad = next((e for e in tr if e['ev'] == 'ret' and e['val'] not in ('ok', 'refused')), None)
+            v.rejected[tid] = dict(kind='unexplained_event', name='NoSpecActionMatches', at=-1, detail='',
+                                   event=bad or (tr[-1] if tr else None))
+    return v
+
+
+def replay(chk: Check, data: dict):
+    """./check C06 --replay FILE: re-execute the schedule of a replay file on the current tree and validate it."""
     meta = (data.get('replay') or {}).get('meta') or {}
     kinds = tuple(meta['kinds'])
     stim = tuple(tuple(x) for x in meta['stimuli'])
-    trace, _ = replay(kinds, stim, meta.get('conc') or {}, meta.get('window') or 'timeout')
+    trace, _ = execute(kinds, stim, meta.get('conc') or {}, meta.get('window') or 'timeout')
+    for e in trace:
+        if e['ev'] != 'tick':
+            print('  ', e['vt'], {k: x for k, x in e.items() if k not in ('s', 'vt', 'ts', 'amb', 'nT') and x not in ('none', 0)},
+                  ' | '.join(f"{x['f']['st']} slots={x['rq']},{x['tt']} live={x['lrq']}{x['ltt']}"
+                             for x in e['s'][:len(kinds)]))
     chk.count(_trace_key(trace))
     v = tlc.validate_traces(TRACE, 'Trace.cfg', [trace], diag_cfg='TraceDiag.cfg', timeout=600)
-    chk.apply_verdicts(v, [trace], fingerprint, meta_of=lambda tid: meta)
-    chk.sample(dict(meta=meta, trace=[{k: x for k, x in e.items() if k != 's'} for e in trace][:60]))
-    chk.log(f'replay of {path}: {"accepted" if v.accepted else "rejected"}')
+    chk.apply_verdicts(_classified([trace], v), [trace], fingerprint, meta_of=lambda tid: meta)
+    chk.log(f'replay: {"accepted" if v.accepted else "rejected"}')
 
 
 def run(chk: Check, args):
@@ -1103,11 +1133,8 @@ def run(chk: Check, args):
                        'repaired and in the code\'s switch position + pinned instances); each is executed on a real '
                        'logged-in SoulSeekClient on the simulated network in virtual time, followed by a 353 s '
                        'observation window; distinct = distinct recorded traces; non-trivial = contains a user call')
-    if getattr(args, 'replay', None):
-        run_replay_file(chk, args.replay)
-        return
 
-    # ---- design model + behaviours -------------------------------------------------------------------
+    # ---- design model ------------------------------------------------------------------------------
     r = tlc.model_check(SPEC, 'MC_quick.cfg', expect_actions=EXPECT_ACTIONS, timeout=1500)
     chk.add_model('TransferTasks 1 transfer (exhaustive)', r)
     for sw, prop in SWITCH_EXPECT.items():
@@ -1116,15 +1143,15 @@ def run(chk: Check, args):
         chk.cov['binding_selftest'][f'model_with_{sw}_FALSE_violates_{prop}'] = hit
         if not hit:
             raise MachineryFailure(f'design model with {sw}=FALSE did not violate {prop}')
-    chk.log('design model in the code\'s switch positions violates the expected properties (4 configs)')
+    chk.log('design model in the code\'s switch positions violates the expected properties (5 configs)')
     if thorough:
         r2 = tlc.model_check(SPEC, 'MC_t2.cfg', timeout=3000)
         chk.add_model('TransferTasks 2 transfers (exhaustive)', r2)
 
-    # ---- schedules ----------------------------------------------------------------------------
+    # ---- schedules ---------------------------------------------------------------------------------
     scheds = collect_schedules(chk, thorough)
     keys = sorted(scheds, key=repr)
-    cap = 2600 if thorough else 300
+    cap = 2200 if thorough else 300
     pinned = [k for k in keys if scheds[k] == 'pinned']
     rest = [k for k in keys if scheds[k] != 'pinned']
     if len(rest) > cap - len(pinned):
@@ -1151,7 +1178,7 @@ def run(chk: Check, args):
         conc = dict(tag=chk.rng.choice('abcdef') + str(chk.rng.randrange(100)),
                     cycle=chk.rng.choice(['status', 'status', 'request']))
         win = window or chk.rng.choice(['timeout', 'timeout', 'ok', 'fail'])
-        ev, nun = replay(kinds, stim, conc, win)
+        ev, nun = execute(kinds, stim, conc, win)
         unhandled += nun
         traces.append(ev)
         metas.append(dict(kinds=list(kinds), stimuli=[list(x) for x in stim], conc=conc, window=win,
@@ -1166,21 +1193,9 @@ def run(chk: Check, args):
     for i in (0, len(traces) // 2, len(traces) - 1):
         chk.sample(dict(meta=metas[i], trace=[{k: x for k, x in e.items() if k != 's'} for e in traces[i]][:40]))
 
-    # ---- verdicts: TLC on the recorded traces ----------------------------------------------------
+    # ---- verdicts: TLC on the recorded traces ---------------------------------------------------------
     v = tlc.validate_traces(TRACE, 'Trace.cfg', traces, diag_cfg='TraceDiag.cfg', max_diag=2, timeout=1500, chunk=1500)
-    why = classify(traces, sorted(v.rejected))
-    for tid, (l, prop) in why.items():
-        info = v.rejected[tid]
-        v.rejected[tid] = dict(kind='property', name=prop, at=l,
-                               detail=(info.get('detail') or '') + ' [event named by TraceWhy.cfg]',
-                               event=traces[tid - 1][l - 1] if 0 < l <= len(traces[tid - 1]) else None)
-    for tid, info in v.rejected.items():
-        if info.get('kind') == 'rejected' and info.get('at') is None:
-            # no property named and not diagnosed: an event no action of the trace spec explains
-            tr = traces[tid - 1]
-            bad = next((e for e in tr if e['ev'] == 'ret' and e['val'] not in ('ok', 'refused')), None)
-            v.rejected[tid] = dict(kind='unexplained_event', name='NoSpecActionMatches', at=-1, detail='',
-                                   event=bad or (tr[-1] if tr else None))
+    _classified(traces, v)
     chk.apply_verdicts(v, traces, fingerprint, meta_of=lambda tid: metas[tid - 1])
     chk.log(f'trace validation: {len(v.accepted)} accepted, {len(v.rejected)} rejected')
     fps = {}
@@ -1244,8 +1259,7 @@ def run(chk: Check, args):
         'after the task ended, in registration order; Queue.put_nowait wakes the getter through the ready queue',
         'negotiation tasks are found by their names queue-remotely-*/initialize-* and attributed to a transfer '
         'through the Transfer object held by their coroutine; slots are read with Transfer.get_tasks()',
-        'the peer is sane: it does not offer a file again while its previous offer is being processed, and sends '
-        'no PeerTransferRequest while an abort of that transfer is removing the local file',
+        'the peer is sane: it does not offer a file again while its previous offer is being processed',
         'peer status changes used as cycle triggers are ONLINE/AWAY (an OFFLINE status resets remotely_queued of '
         'every download of that user, also of aborted ones; judged benign and left out)',
         'one peer, fallback connect mode, GetPeerAddress answered at once; timeouts (10 s connect, 60 s indirect / '
